@@ -14,6 +14,16 @@ def main(argv=None) -> int:
     ap.add_argument('--no-write', action='store_true')
     a = ap.parse_args(argv)
     os.environ['VERIF_REPO'] = a.repo
+    if a.pid == 'setup':
+        # offline self-check of the framework: every rule module imports, the repository parses
+        import glob
+        from .api import program
+        n = 0
+        for f in sorted(glob.glob(os.path.join(os.path.dirname(__file__), 'rules', 'c[0-9][0-9].py'))):
+            importlib.import_module('cc.rules.' + os.path.basename(f)[:-3]); n += 1
+        prog = program(os.path.join(a.repo, 'src'))
+        print(f'setup ok: {n} rule modules, {len(prog.modules)} repository modules, {len(prog.funcs)} functions parsed')
+        return 0
     if a.pid == 'all':
         worst = 0
         for p in PROPS:
